@@ -671,9 +671,11 @@ func c01WorkerCase(prefix []*types.WorkObject, ops []int) (string, string, strin
 			}
 			continue
 		}
-		if ok, _ := c10ApplyOp(s, op); ok && c10Ops[op] != "empty" {
+		// (the foreign-miner parts of CH / DUP are dropped: this part is about the node's OWN worker)
+		if ok, _ := c10ApplyOp(s, op); ok && c10Ops[op] != "empty" && c10Ops[op] != "DUP" {
 			admitted++
 		}
+		s.extra = nil
 	}
 	blk, err := s.n.Build(core.VBuildOpts{Order: 2, Fill: true})
 	if err != nil {
